@@ -703,6 +703,16 @@ impl Ctx {
         let ctx = guarded(|| RitiContext::new_with_config(&cfg))?;
         Ok(Ctx { opts, cfg, ctx, base: base.to_path_buf() })
     }
+    /// A context whose data directory is `data` instead of the checkout's (a copy the check may rewrite).
+    pub fn new_with_data(opts: Opts, base: &Path, data: &Path) -> Result<Ctx, PanicInfo> {
+        let mut cfg = mk_config_at(&opts, base);
+        let d = CString::new(data.to_string_lossy().to_string()).unwrap();
+        unsafe {
+            assert!(riti_config_set_database_dir(&mut *cfg, d.as_ptr()), "data dir rejected");
+        }
+        let ctx = guarded(|| RitiContext::new_with_config(&cfg))?;
+        Ok(Ctx { opts, cfg, ctx, base: base.to_path_buf() })
+    }
     pub fn key_raw(&self, key: u16, modifier: u8, sel: u8) -> Result<Suggestion, PanicInfo> {
         ENGINE_EVENTS.fetch_add(1, Ordering::Relaxed);
         guarded(|| self.ctx.get_suggestion_for_key(key, modifier, sel))
